@@ -456,14 +456,15 @@ def weightSum (base : Nat) : Nat → List (List Nat) → Nat
 def noiseGenerate (isAddition hit : Bool) (u value : Rat) : Rat :=
   if hit then (if value = 0 then u else value * u + (if isAddition then value else 0)) else value
 
-/-- `SelectionSamplingIterator` over `0 .. size` (a range iterator) asking for `amount` items; `hits` = the results of
-    the successive `is_hit` calls (`true` when exhausted). Returns the selected items. -/
+/-- `SelectionSamplingIterator` over `0 .. size` (a range iterator) asking for `amount` items; `hits` = the random
+    outcomes of the successive `is_hit(needed / left)` calls (`true` when exhausted); a probability `≥ 1` is always a
+    hit (`gen_bool(p.clamp(0, 1))`). Returns the selected items. -/
 def selectionSampling (size : Nat) : (fuel processed needed : Nat) → List Bool → List Nat
   | 0, _, _, _ => []
   | fuel + 1, processed, needed, hits =>
     if needed ≠ 0 ∧ size > processed then
       -- the inner iterator is `0..size`, so `next` is `Some(processed)` here
-      let hit := hits.headD true
+      let hit := if size - processed ≤ needed then true else hits.headD true
       if hit then processed :: selectionSampling size fuel (processed + 1) (needed - 1) hits.tail
       else selectionSampling size fuel (processed + 1) needed hits.tail
     else []
